@@ -121,5 +121,23 @@ Definition eval_one (acc : results * list nat) (n : nat) : results * list nat :=
 Definition sweep (acc : results * list nat) : results * list nat := fold_left eval_one R0 acc.
 Definition den_eval (res0 : results) : results * list nat := iter (length R0) sweep (res0, []).
 Definition den (res0 : results) (n : nat) : option val := lookup (fst (den_eval res0)) n.
+
+(* the same evaluator with the participating node list computed once (call-by-value evaluation of
+   [den_eval] recomputes R0 at every membership test); DataflowFast.v proves it equal to [den_eval] *)
+Definition computable_in (r0 : list nat) (res : results) (n : nat) : bool :=
+  forallb (fun p => negb (mem p r0) || has res p) (deps_of n).
+Definition eval_one_in (r0 : list nat) (acc : results * list nat) (n : nat) : results * list nat :=
+  let '(res, failed) := acc in
+  if has res n || mem n failed || negb (computable_in r0 res n) then acc
+  else match flag res n with
+       | None => (res, n :: failed)
+       | Some false => ((n, vnone) :: res, failed)
+       | Some true => match exec_node res n with
+                      | Some v => ((n, v) :: res, failed)
+                      | None => (res, n :: failed)
+                      end
+       end.
+Definition den_eval_fast (res0 : results) : results * list nat :=
+  let r0 := R0 in iter (length r0) (fun acc => fold_left (eval_one_in r0) r0 acc) (res0, []).
 End Run.
 End V.
